@@ -20,6 +20,84 @@ def field_of_self(b, o):
     return None, []
 
 
+def kind_table_agreement(chk, P, key):
+    """Display and FromStr of `Kind` are two tables over the same variants: Display writes one constant text per variant, and in FromStr the
+    accepting edge of the comparison with that text returns `Ok` of *that* variant, directly.  Shared with C15 (format-then-parse returns the
+    original kind)."""
+    def f():
+        d = P.impl_method("core::fmt::Display", "emit::kind::Kind", "fmt")
+        fs = P.impl_method("core::str::traits::FromStr", "emit::kind::Kind", "from_str")
+        adt = P.adt("emit::kind::Kind")
+        names = {str(v.get("discr", i)): v["name"] for i, v in enumerate(adt["variants"])}
+        shown = {}
+        for bb, t in d.switches():
+            so = d.switch_origin(bb)
+            if so[0] != "discr":
+                continue
+            for v, tgt in t["targets"] + [["otherwise", t["otherwise"]]]:
+                txt = set()
+                for x in range(len(d.blocks)):
+                    if d.blocks[x].get("cleanup") or not (x == tgt or d.edge_dominates(bb, tgt, x)):
+                        continue
+                    for st in d.blocks[x]["stmts"]:
+                        if st["k"] == "assign":
+                            for o in d.rvalue_operands(st["rv"]):
+                                cv = mir.o_const_value(d.origin(o)) if isinstance(o, dict) else None
+                                if isinstance(cv, str) and cv:
+                                    txt.add(cv)
+                    tm = d.blocks[x]["term"]
+                    if tm["k"] == "call":
+                        for a in tm["args"]:
+                            cv = mir.o_const_value(d.origin(a))
+                            if isinstance(cv, str) and cv:
+                                txt.add(cv)
+                if txt:
+                    shown[str(v)] = txt
+        disp = {}
+        for v, txt in shown.items():
+            if v in names and len(txt) == 1:
+                disp[names[v]] = list(txt)[0]
+        if len(disp) < len(names) - (1 if "otherwise" in shown else 0) or len(disp) < 2:
+            rest = [n for n in names.values() if n not in disp]
+            if len(rest) == 1 and "otherwise" in shown and len(shown["otherwise"]) == 1:
+                disp[rest[0]] = list(shown["otherwise"])[0]
+        if len(disp) != len(names):
+            raise mir.AnchorMissing("one constant text per Kind variant in Display (found %s)" % disp)
+        parsed = {}
+        for bb, t in fs.switches():
+            so, pos = mir.norm_bool(fs.switch_origin(bb))
+            if so[0] != "call" or so[1].callee.get("name") not in ("eq_ignore_ascii_case", "eq", "ne"):
+                continue
+            ks = [mir.o_const_value(fs.origin(a)) for a in so[1].args]
+            ks = [k for k in ks if isinstance(k, str)]
+            if len(ks) != 1:
+                continue
+            if so[1].callee.get("name") == "ne":
+                pos = not pos
+            for v, tgt in [(v, n) for v, n in t["targets"]] + [("otherwise", t["otherwise"])]:
+                if ((str(v) != "0") == pos):
+                    outs = set()
+                    for rb in fs.return_blocks():
+                        for path in fs.acyclic_paths(tgt, rb, limit=200):
+                            # only paths that take no further decision: the accepting edge answers at once
+                            if any(fs.blocks[x]["term"]["k"] == "switch" for x in path):
+                                outs.add("<falls through to further tests>")
+                                continue
+                            r = mir.PathSummary(fs, [bb] + path).ret()
+                            if r[0] == "agg" and r[1].get("variant") == "Ok" and r[2] and r[2][0][0] == "agg":
+                                outs.add(r[2][0][1].get("variant"))
+                            else:
+                                outs.add(mir.o_str(r))
+                    parsed[ks[0]] = outs
+        for var, txt in sorted(disp.items()):
+            got = parsed.get(txt) or next((o for k, o in parsed.items() if k.lower() == txt.lower()), None)
+            if got != {var}:
+                return False, ("Kind::%s is displayed as `%s`, but parsing `%s` yields %s: the text form does not come back as the kind it was written from"
+                               % (var, txt, txt, sorted(got) if got else "no acceptance")), [], fs.span
+        return True, "", ["%s <-> `%s`" % kv for kv in sorted(disp.items())]
+    chk.ob(key, "each kind's text parses back to that kind (Display and FromStr tables agree, variant by variant)", f)
+
+
 def run(chk):
     P = mir.Program("K1")
     chk.use_program(P)
@@ -360,6 +438,7 @@ def run(chk):
             return False, "Kind displays as %s but FromStr compares with %s" % (sorted(ds), sorted(fs)), [], f.span
         return True, "", sorted(ds)
     chk.ob("C14.R3:Kind-text", "the kind's text form is what its parser recognises", kind_display_parse)
+    kind_table_agreement(chk, P, "C14.R3:Kind-table")
 
     common.arg_agreement_rule(chk, P, "C14", [("emit_otlp", "src/client.rs"), ("emit_otlp", "src/data/metrics.rs"),
                                                ("emit_otlp", "src/data/traces.rs"), ("emit_otlp", "src/data/logs.rs"), ("emit", "src/kind.rs")], 5)
